@@ -4,6 +4,15 @@
 // invocations are extracted from /repo on every run and compiled verbatim; GlobalState::set_rules plays the contract
 // that unit `set_rules` establishes for the real method (Ok => the posted list is in force; Err => nothing changed).
 #![allow(dead_code, unused_variables, unused_macros, static_mut_refs, unused_imports, unused_mut, non_upper_case_globals)]
+// `tracing::level!(..)` written with its path by an edit keeps compiling (log statements have no effect on the checks)
+pub mod tracing {
+    macro_rules! trace { ($($t:tt)*) => { () } }
+    macro_rules! debug { ($($t:tt)*) => { () } }
+    macro_rules! info { ($($t:tt)*) => { () } }
+    macro_rules! warn_ { ($($t:tt)*) => { () } }
+    macro_rules! error { ($($t:tt)*) => { () } }
+    pub(crate) use {trace, debug, info, warn_ as warn, error};
+}
 pub const MAX: usize = 2;
 #[derive(Clone, Copy, Debug, PartialEq, Eq)] pub struct Error(pub u8);
 #[derive(Clone, Copy, Debug, PartialEq, Eq)] pub struct MyError(pub Error);
